@@ -1,22 +1,30 @@
 """C05 — ECB/CBC/CTR/CTS modes follow SP 800-38A and decrypt what they encrypt.
 
-The modes of crysp/mode.py take ANY object with .blocksize/.enc/.dec, so the real mode code is driven with two toy
-ciphers (ToyRot, ToyAff: keyed permutations of n-byte blocks, n in 8..128) that are mirrored line by line in
-lean/Model/ToyCipher.lean: `mode …` lines are compared code <-> model <-> spec.  check_impl is the property's own
-predicate on the implementation: an independent reference of SP 800-38A (+ padding, + ciphertext stealing) written
-here on bytes, the round trip with an equally configured fresh object, and the length laws.  `modert …` lines run the
-library's real ciphers (AES, DES, TDEA, Serpent, Threefish) through the real modes; their result is a summary
-(`rt-ok len=…`) which the driver predicts from the length laws alone."""
+`mode …` lines are compared code <-> model <-> spec, with two kinds of block cipher:
+  * the library's own AES / DES / TDEA (every calling form) / Serpent objects: the real mode objects run over the real
+    cipher objects; the driver answers with Model.Mode over the Lean cipher models (model column) and with Spec.Mode
+    (SP 800-38A) over the Spec ciphers FIPS 197 / FIPS 46-3 / SP 800-67 / the Serpent submission (spec column);
+  * two toy ciphers (ToyRot, ToyAff: keyed permutations of n-byte blocks, n in 8..128, mirrored line by line in
+    lean/Model/ToyCipher.lean), because the modes take ANY object with .blocksize/.enc/.dec and the library's block
+    lengths are only 8 and 16 bytes (Threefish: 32/64/128).
+check_impl is the property's own predicate on the implementation: an independent reference of SP 800-38A (+ padding,
++ ciphertext stealing) written here on bytes over the cipher object's block function, the round trip with an equally
+configured fresh object, the length laws, and the printed ciphertexts of SP 800-38A appendix F for the F.1/F.2/F.5
+lines of corpus/C05.ops.  `modert …` lines run Threefish (no Lean model yet) through the real modes; their result
+is a summary (`rt-ok len=…`) which the driver predicts from the length laws alone."""
 from props.common import *
 
 ID = 'C05'
-LEAN_PROOFS = ['Proofs.C05']
+LEAN_PROOFS = ['Proofs.C05', 'Proofs.C05.KatF']
 GEN_ITEMS = []
-RULE = ('op lines = (mode, cipher, block length, key, IV/counter, padding, enc|dec|rt, message); every mode x 2 toy ciphers x block '
-        'lengths 8..128 x every residue of |M| mod block for 0..3 blocks x admissible paddings, counter halves at 2^k-1 / all-ones, '
-        'malformed lengths; distinct lines; non-trivial = the implementation returned a value')
-TRUSTED = ['Spec.Mode / Spec.ModePad are trusted as renderings of SP 800-38A (+Addendum) and PKCS#7 / X9.23 / ISO 9797-1 method 2',
-           'the block cipher is abstract in the theorems: for a concrete cipher they apply once C03 supplies `Proofs.Lemmas.ModeL.Implements`',
+RULE = ('op lines = (mode, cipher, block length, key, IV/counter, padding, enc|dec|rt|er, message); every mode x {AES-128/192/256, DES, '
+        'TDEA in its 5 calling forms, Serpent with several key lengths, 2 toy ciphers x block lengths 8..128} x every residue of |M| mod '
+        'block for 0..3 blocks x admissible paddings, counter halves at 2^k-1 / all-ones, SP 800-38A appendix F vectors, damaged '
+        'paddings, malformed lengths / keys; distinct lines; non-trivial = the implementation returned a value')
+TRUSTED = ['Spec.Mode / Spec.ModePad are trusted as renderings of SP 800-38A (+Addendum) and PKCS#7 / X9.23 / ISO 9797-1 method 2 '
+           '(Spec.ModePad is proved equal to Spec.Padding of C09 on byte strings; appendix F vectors are checked against Spec.Mode over Spec.Aes)',
+           'Spec.Aes / Spec.Des / Spec.Serpent as renderings of FIPS 197 / FIPS 46-3 + SP 800-67 / the Serpent submission (properties C02, C03)',
+           'Threefish has no Lean model yet: for it the theorems apply only through the abstract-cipher form (`Implements`)',
            'CPython bytes slicing / BytesIO.read / generators are modelled (Model.Mode, Model.Padding), validated by this stream']
 ASSUMPTIONS = ['python -O (asserts stripped) is out of scope',
                'block length < 256 bytes for PKCS#7 / X9.23 (a pad byte must hold the pad length); the library maximum is 128',
@@ -69,6 +77,42 @@ def real_cipher(name, key):
     raise RuntimeError('unknown cipher ' + name)
 
 
+REALC = {'AES': 16, 'DES': 8, 'TDEA': 8, 'SERPENT': 16}      # cipher token of `mode` lines -> block bytes
+
+def cipher_obj(cid, n, keys):
+    """the cipher object of a `mode` line: a toy, or a real cipher of the library built the way a user builds it"""
+    if cid in TOYS:
+        if len(keys) != 1: raise RuntimeError('toy key')
+        return TOYS[cid](n, keys[0])
+    if cid not in REALC or REALC[cid] != n: raise RuntimeError('block length token does not match the cipher')
+    if cid == 'TDEA':
+        from crysp.des import TDEA
+        if not 1 <= len(keys) <= 3: raise RuntimeError('TDEA key token')
+        return TDEA(*keys)
+    if len(keys) != 1: raise RuntimeError('key token')
+    return real_cipher({'AES': 'AES', 'DES': 'DES', 'SERPENT': 'Serpent'}[cid], keys[0])
+
+_REF = {}
+def reference_E(cid, n, keys):
+    """block function for the independent reference (one object per key and worker: the reference may keep its key schedule)"""
+    k = (cid, n, tuple(keys))
+    if k not in _REF:
+        if len(_REF) > 64: _REF.clear()
+        _REF[k] = cipher_obj(cid, n, keys).enc
+    return _REF[k]
+
+def key_ok(cid, n, keys):
+    """keys the cipher (toy: the toy of block length n) is defined for"""
+    if cid in TOYS: return len(keys) == 1 and len(keys[0]) == n
+    if cid == 'AES': return len(keys[0]) in (16, 24, 32)
+    if cid == 'DES': return len(keys[0]) == 8
+    if cid == 'SERPENT': return len(keys[0]) <= 32
+    if cid == 'TDEA':
+        if len(keys) == 1: return len(keys[0]) in (8, 16, 24)
+        return all(len(k) == 8 for k in keys)
+    return False
+
+
 def make_mode(mode, cipher, iv, pad):
     """an equally configured fresh mode object of the real library"""
     from crysp import mode as MO, padding as PA
@@ -84,25 +128,34 @@ def make_mode(mode, cipher, iv, pad):
 
 
 def parse(line):
+    """key: for `mode` lines the list of key strings (one, or the 1..3 arguments of TDEA), for `modert` one string"""
     t = line.split()
     if t[0] == 'mode':
         _, mode, cid, n, key, iv, pad, verb, msg = t
+        key = [unhx(k) for k in key.split(',')]
     else:
         _, mode, cid, n, key, iv, pad, msg = t; verb = 'rtsum'
-    return t[0], mode, cid, int(n), unhx(key), (None if iv == '-' else unhx(iv)), pad, verb, unhx(msg)
+        key = unhx(key)
+    return t[0], mode, cid, int(n), key, (None if iv == '-' else unhx(iv)), pad, verb, unhx(msg)
 
 
 def run_impl(line):
     op, mode, cid, n, key, iv, pad, verb, msg = parse(line)
     if op == 'mode':
-        mk = lambda: make_mode(mode, TOYS[cid](n, key), iv, pad)
+        if cid not in TOYS and REALC.get(cid) != n: raise RuntimeError('block length token does not match the cipher')
+        if verb not in ('enc', 'dec', 'rt', 'enc2', 'er', 'xd'): raise RuntimeError('verb ' + verb)
+        mk = lambda: make_mode(mode, cipher_obj(cid, n, key), iv, pad)
         def go():
             if verb == 'enc': return hx(mk().enc(msg))
             if verb == 'dec': return hx(mk().dec(msg))
             if verb == 'rt': return hx(mk().dec(mk().enc(msg)))
+            if verb == 'er':                        # ciphertext and its decryption by an equally configured fresh object
+                C = mk().enc(msg); return hx(C) + ';' + hx(mk().dec(C))
             if verb == 'enc2':                      # second encryption on the same object (the padding iterator is reset)
                 m = mk(); m.enc(msg); return hx(m.enc(msg))
-            raise RuntimeError('verb ' + verb)
+            if verb == 'xd':                        # msg = an already 'padded' plaintext: encrypt it as it is, decrypt with the scheme
+                C = make_mode(mode, cipher_obj(cid, n, key), iv, 'nopadding').enc(msg)
+                return hx(mk().dec(C))
         return guarded(go)
     if op == 'modert':
         def go():
@@ -152,8 +205,21 @@ def r_cts_cbc(E, n, iv, M):
     if d == n: return b''.join(C)
     return b''.join(C[:-2] + [C[-1], C[-2][:d]])
 
-def in_domain(mode, n, key, iv, pad, msg):
-    if pad not in PADS or len(key) != n: return False
+def unpad_candidate(pad, n, P):
+    """the message M with r_pad(pad, n, M) == P, or None"""
+    if not P: return None
+    if pad in ('pkcs7', 'X923'):
+        q = P[-1]
+        M = P[:-q] if 1 <= q <= len(P) else None
+    else:
+        M = P.rstrip(b'\x00')
+        M = M[:-1] if M.endswith(b'\x80') else None
+    return M if M is not None and r_pad(pad, n, M) == P else None
+
+def in_domain(mode, n, key, iv, pad, msg, cid='rot'):
+    """key: list of key strings (a bytes object = one toy/`modert` key of block length)"""
+    if isinstance(key, (bytes, bytearray)): key = [bytes(key)]
+    if pad not in PADS or not key_ok(cid, n, key): return False
     if mode in ('CBC', 'CTS_CBC') and (iv is None or len(iv) != n): return False
     if mode in ('ECB', 'CTS_ECB') and iv is not None: return False
     if mode in ('ECB', 'CBC'):
@@ -184,12 +250,36 @@ def check_impl(line, res):
         if not in_domain(mode, n, bytes(n), iv, pad, msg): return None
         exp = 'rt-ok len=%d' % law_len(mode, n, pad, len(msg))
         return None if res == exp else bad('got %s, expected %s' % (res, exp))
-    if not in_domain(mode, n, key, iv, pad, msg): return None
-    toy = TOYS[cid](n, key)
-    if verb in ('enc', 'enc2'):
+    kat = KAT.get(line)
+    if kat is not None and res != kat: return bad('differs from the ciphertext printed in SP 800-38A appendix F')
+    if verb == 'dec' and mode in ('CTS_ECB', 'CTS_CBC'):
+        # every string of at least one block (plus the IV block) is a ciphertext of exactly one message: enc(dec(C)) = C
+        if pad != 'nopadding' or not key_ok(cid, n, key) or len(msg) < (2 * n if mode == 'CTS_CBC' else n): return None
+        if mode == 'CTS_CBC' and (iv is None or len(iv) != n): return None
+        if mode == 'CTS_ECB' and iv is not None: return None
         if res == 'ERR': return bad('exception inside the domain')
-        C = unhx(res)
-        exp = reference(mode, toy.enc, n, iv, pad, msg)
+        M = unhx(res)
+        if len(M) != len(msg) - (n if mode == 'CTS_CBC' else 0): return bad('plaintext length %d' % len(M))
+        back = make_mode(mode, cipher_obj(cid, n, key), msg[:n] if mode == 'CTS_CBC' else None, pad).enc(M)
+        return None if back == msg else bad('enc(dec(C)) = %s' % hx(back))
+    if verb == 'xd':
+        # dec(enc_nopadding(P)) = unpad(P): the message whose padded string is P, an exception when there is none
+        if mode not in ('ECB', 'CBC') or pad == 'nopadding' or not in_domain(mode, n, key, iv, 'nopadding', msg, cid): return None
+        M = unpad_candidate(pad, n, msg)
+        if M is not None: return None if res == hx(M) else bad('P is the padded string of %s, got %s' % (hx(M), res))
+        if pad in ('pkcs7', 'X923'): return None if res == 'ERR' else bad('P is not a padded string, got %s' % res)
+        return None
+    if not in_domain(mode, n, key, iv, pad, msg, cid): return None
+    E = reference_E(cid, n, key)
+    if verb in ('enc', 'enc2', 'er'):
+        if res == 'ERR': return bad('exception inside the domain')
+        if verb == 'er':
+            if ';' not in res: return bad('malformed result')
+            c, m = res.split(';')
+            if m != hx(msg): return bad('dec(enc(M)) = %s' % m)
+        else: c = res
+        C = unhx(c)
+        exp = reference(mode, E, n, iv, pad, msg)
         if len(C) != law_len(mode, n, pad, len(msg)): return bad('length %d, expected %d' % (len(C), law_len(mode, n, pad, len(msg))))
         if mode in ('CBC', 'CTS_CBC') and C[:n] != iv: return bad('output does not start with the IV')
         if C != exp: return bad('differs from SP 800-38A reference %s' % hx(exp))
@@ -197,9 +287,38 @@ def check_impl(line, res):
     if verb == 'rt':
         return None if res == hx(msg) else bad('dec(enc(M)) = %s' % res)
     if verb == 'dec' and mode == 'CTR':
-        exp = reference(mode, toy.enc, n, iv, pad, msg)
+        exp = reference(mode, E, n, iv, pad, msg)
         return None if res == hx(exp) else bad('differs from reference')
     return None
+
+
+# SP 800-38A appendix F (2001 edition): F.1 ECB-AES128/192/256, F.2 CBC-AES128/192/256, F.5 CTR-AES128/192/256.
+# Typed from the standard (not computed).  The `er` lines of corpus/C05.ops carry key, IV / initial counter block and
+# the four plaintext blocks; the expected result is the printed ciphertext (CBC: behind the IV crysp prepends) and the
+# plaintext back (F.x.2/4/6 are the same vectors read in the decrypt direction).
+F_PT = '6bc1bee22e409f96e93d7e117393172aae2d8a571e03ac9c9eb76fac45af8e5130c81c46a35ce411e5fbc1191a0a52eff69f2445df4f9b17ad2b417be66c3710'
+F_KEYS = {128: '2b7e151628aed2a6abf7158809cf4f3c', 192: '8e73b0f7da0e6452c810f32b809079e562f8ead2522c6b7b',
+          256: '603deb1015ca71be2b73aef0857d77811f352c073b6108d72d9810a30914dff4'}
+F_IV = '000102030405060708090a0b0c0d0e0f'
+F_CTR = 'f0f1f2f3f4f5f6f7f8f9fafbfcfdfeff'
+F_CT = {('ECB', 128): '3ad77bb40d7a3660a89ecaf32466ef97' 'f5d3d58503b9699de785895a96fdbaaf' '43b1cd7f598ece23881b00e3ed030688' '7b0c785e27e8ad3f8223207104725dd4',
+        ('ECB', 192): 'bd334f1d6e45f25ff712a214571fa5cc' '974104846d0ad3ad7734ecb3ecee4eef' 'ef7afd2270e2e60adce0ba2face6444e' '9a4b41ba738d6c72fb16691603c18e0e',
+        ('ECB', 256): 'f3eed1bdb5d2a03c064b5a7e3db181f8' '591ccb10d410ed26dc5ba74a31362870' 'b6ed21b99ca6f4f9f153e7b1beafed1d' '23304b7a39f9f3ff067d8d8f9e24ecc7',
+        ('CBC', 128): '7649abac8119b246cee98e9b12e9197d' '5086cb9b507219ee95db113a917678b2' '73bed6b8e3c1743b7116e69e22229516' '3ff1caa1681fac09120eca307586e1a7',
+        ('CBC', 192): '4f021db243bc633d7178183a9fa071e8' 'b4d9ada9ad7dedf4e5e738763f69145a' '571b242012fb7ae07fa9baac3df102e0' '08b0e27988598881d920a9e64f5615cd',
+        ('CBC', 256): 'f58c4c04d6e5f1ba779eabfb5f7bfbd6' '9cfc4e967edb808d679f777bc6702c7d' '39f23369a9d9bacfa530e26304231461' 'b2eb05e2c39be9fcda6c19078c6a9d1b',
+        ('CTR', 128): '874d6191b620e3261bef6864990db6ce' '9806f66b7970fdff8617187bb9fffdff' '5ae4df3edbd5d35e5b4f09020db03eab' '1e031dda2fbe03d1792170a0f3009cee',
+        ('CTR', 192): '1abc932417521ca24f2b0459fe7e6e0b' '090339ec0aa6faefd5ccc2c6f4ce8e94' '1e36b26bd1ebc670d1bd1d665620abf7' '4f78a7f6d29809585a97daec58c6b050',
+        ('CTR', 256): '601ec313775789a5b7a7f504bbf3d228' 'f443e3ca4d62b59aca84e990cacaf5c5' '2b0930daa23de94ce87017ba2d84988d' 'dfc9c58db67aada613c2dd08457941a6'}
+
+def kat_lines():
+    out = {}
+    for (mode, bits), ct in sorted(F_CT.items()):
+        iv = {'ECB': '-', 'CBC': 'x' + F_IV, 'CTR': 'x' + F_CTR}[mode]
+        line = 'mode %s AES 16 x%s %s nopadding er x%s' % (mode, F_KEYS[bits], iv, F_PT)
+        out[line] = 'x' + (F_IV if mode == 'CBC' else '') + ct + ';x' + F_PT
+    return out
+KAT = kat_lines()
 
 
 # ---------------------------------------------------------------------------------------------
@@ -316,8 +435,99 @@ def malformed_cases(tier, rng):
             yield mline('CBC', 'aff', n, key, rb(rng, n), 'X923', 'rt', rb(rng, L)), 'odd-block-cbc'
 
 
-REAL = [('AES', 16, 16), ('AES', 16, 24), ('AES', 16, 32), ('DES', 8, 8), ('TDEA', 8, 16), ('Serpent', 16, 16), ('Serpent', 16, 32),
-        ('Threefish', 32, 32), ('Threefish', 64, 64), ('Threefish', 128, 128)]
+def rline(mode, cid, n, keys, iv, pad, verb, msg):
+    return 'mode %s %s %d %s %s %s %s %s' % (mode, cid, n, ','.join(hx(k) for k in keys), '-' if iv is None else hx(iv), pad, verb, hx(msg))
+
+def real_keys(tier, rng):
+    """(cipher token, block bytes, key strings, tag, full): one (quick) or two (thorough) keys per key size / calling form;
+    `full` = every residue of |M| in the quick tier too (otherwise the boundary residues)"""
+    out = []
+    for rep in range(1 if tier == 'quick' else 2):
+        for kl in (16, 24, 32): out.append(('AES', 16, [rb(rng, kl)], 'AES-%d' % (8 * kl), kl == 16))
+        out.append(('DES', 8, [rb(rng, 8)], 'DES', True))
+        out.append(('TDEA', 8, [rb(rng, 24)], 'TDEA-string24', True))
+        out.append(('TDEA', 8, [rb(rng, 16)], 'TDEA-string16', False))
+        out.append(('TDEA', 8, [rb(rng, 8)], 'TDEA-string8', False))
+        out.append(('TDEA', 8, [rb(rng, 8), rb(rng, 8)], 'TDEA-2args', False))
+        out.append(('TDEA', 8, [rb(rng, 8), rb(rng, 8), rb(rng, 8)], 'TDEA-3args', False))
+        out.append(('SERPENT', 16, [rb(rng, 32)], 'Serpent-256', True))
+        out.append(('SERPENT', 16, [rb(rng, 16)], 'Serpent-128', False))
+        out.append(('SERPENT', 16, [rb(rng, rng.choice([0, 1, 5, 15, 17, 24, 31]))], 'Serpent-short', False))
+        if tier != 'quick':
+            for kl in (0, 1, 15, 17, 24, 31): out.append(('SERPENT', 16, [rb(rng, kl)], 'Serpent-%d' % (8 * kl), False))
+    return out
+
+def real_lengths(n, tier, full, j):
+    allL = list(range(0, 3 * n + 2))
+    if tier != 'quick': return allL
+    if not full: return sorted({0, n - 1, n, n + 1, 2 * n + n // 2, 3 * n})
+    if n <= 8: return allL
+    bnd = {0, 1, n - 1, n, n + 1, 2 * n - 1, 2 * n, 2 * n + 1, 3 * n, 3 * n + 1}
+    return sorted(bnd | {L for L in allL if (L + j) % 4 == 0})      # the configurations of one key together cover every residue
+
+def real_mode_cases(tier, rng, keys=None):
+    """the real mode objects over the real cipher objects: every mode x cipher/key x |M| x admissible padding, `er` lines"""
+    for cid, n, ks, ktag, full in (keys or real_keys(tier, rng)):
+        j = 0
+        for mode in MODES:
+            for pad in admissible(mode):
+                j += 1
+                for L in real_lengths(n, tier, full, j):
+                    iv = rb(rng, n) if mode in ('CBC', 'CTS_CBC') else None
+                    if mode == 'CTR':
+                        w = n - n // 2
+                        iv = [None, rb(rng, n), rb(rng, n // 2) + b'\xff' * w, rb(rng, n // 2) + b'\xff' * (w - 1) + b'\xfe'][(L + j) % 4]
+                    yield rline(mode, cid, n, ks, iv, pad, 'er', rb(rng, L)), 'real/%s/%s/%s' % (ktag, mode, pad)
+
+def real_dec_cases(tier, rng, keys=None):
+    """decryption side with the real ciphers: arbitrary strings as ciphertexts (every string of >= 1 block is a CTS ciphertext;
+    ECB/CBC: padding errors), 'padded' plaintexts with good and damaged paddings (verb xd), wrong ciphertext lengths"""
+    for cid, n, ks, ktag, full in (keys or real_keys(tier, rng)):
+        if tier == 'quick' and ktag not in ('AES-128', 'DES', 'TDEA-3args', 'Serpent-128'): continue
+        for mode in MODES:
+            for pad in admissible(mode):
+                for L in sorted({n, n + 1, 2 * n - 1, 2 * n, 2 * n + 3, 3 * n, 4 * n - 1} if tier != 'quick' or mode.startswith('CTS') else {n + 1, 2 * n, 3 * n}):
+                    iv = rb(rng, n) if mode in ('CBC', 'CTS_CBC', 'CTR') else None
+                    yield rline(mode, cid, n, ks, iv, pad, 'dec', rb(rng, L)), 'real-dec/%s/%s/%s/raw' % (ktag, mode, pad)
+                if mode in ('ECB', 'CBC') and pad != 'nopadding':
+                    iv = rb(rng, n) if mode == 'CBC' else None
+                    lasts = [bytes(n), bytes([n]) * n, bytes([n + 1]) * n, bytes(n - 1) + b'\x01', bytes(n - 2) + b'\x02\x02', bytes(n - 2) + b'\x01\x02',
+                             bytes(n - 3) + b'\x07\x00\x03', b'\x80' + bytes(n - 1), rb(rng, n - 1) + b'\x80', bytes(n - 1) + b'\x40', rb(rng, n)]
+                    if tier == 'quick': lasts = [lasts[i] for i in range(len(lasts)) if (i + len(mode) + len(pad)) % 2 == 0]
+                    for lastp in lasts:
+                        P = rb(rng, n * rng.choice([0, 1, 2])) + lastp
+                        yield rline(mode, cid, n, ks, iv, pad, 'xd', P), 'real-dec/%s/%s/%s/padded-plaintext' % (ktag, mode, pad)
+
+def real_malformed_cases(tier, rng):
+    """keys the cipher constructors refuse, IVs of the wrong length: the exception surfaces before / in the mode constructor"""
+    for cid, n, ks in [('AES', 16, [rb(rng, 15)]), ('AES', 16, [rb(rng, 17)]), ('AES', 16, [b'']), ('AES', 16, [rb(rng, 33)]),
+                       ('DES', 8, [rb(rng, 7)]), ('DES', 8, [rb(rng, 9)]), ('TDEA', 8, [rb(rng, 12)]), ('TDEA', 8, [rb(rng, 32)]),
+                       ('TDEA', 8, [rb(rng, 16), rb(rng, 8)]), ('TDEA', 8, [rb(rng, 8), rb(rng, 7)]), ('TDEA', 8, [rb(rng, 8), rb(rng, 8), rb(rng, 9)]),
+                       ('SERPENT', 16, [rb(rng, 33)]), ('SERPENT', 16, [rb(rng, 40)])]:
+        for mode in MODES:
+            iv = rb(rng, n) if mode in ('CBC', 'CTS_CBC') else None
+            for L in (0, n, 2 * n):       # also the empty nopadding message: no block is ever encrypted, the key alone must be refused
+                yield rline(mode, cid, n, ks, iv, 'nopadding', 'er', rb(rng, L)), 'real-malformed/key'
+            yield rline(mode, cid, n, ks, iv, 'nopadding', 'dec', rb(rng, 2 * n)), 'real-malformed/key'
+    for cid, n, ks in [('AES', 16, [rb(rng, 16)]), ('DES', 8, [rb(rng, 8)]), ('SERPENT', 16, [rb(rng, 16)])]:
+        for mode in ('CBC', 'CTS_CBC', 'CTR'):
+            for ivl in (0, n - 1, n + 1):
+                yield rline(mode, cid, n, ks, rb(rng, ivl), 'nopadding', 'er', rb(rng, 2 * n)), 'real-malformed/iv-length'
+
+def xd_toy_cases(tier, rng):
+    """'padded' plaintexts with the toy ciphers (block lengths beyond 16 bytes)"""
+    for n in (8, 16, 32):
+        for cid in ('rot', 'aff'):
+            key = rb(rng, n)
+            for mode in ('ECB', 'CBC'):
+                for pad in PADS[:3]:
+                    iv = rb(rng, n) if mode == 'CBC' else None
+                    for lastp in (bytes(n), bytes([n]) * n, bytes([n + 1]) * n, bytes(n - 1) + b'\x01', bytes(n - 2) + b'\x01\x02',
+                                  b'\x80' + bytes(n - 1), rb(rng, n - 1) + b'\x80', rb(rng, n)):
+                        yield mline(mode, cid, n, key, iv, pad, 'xd', rb(rng, n * rng.choice([0, 1, 2])) + lastp), 'padded-plaintext/%s/%s' % (mode, pad)
+
+
+REAL = [('Threefish', 32, 32), ('Threefish', 64, 64), ('Threefish', 128, 128)]     # no Lean model yet: summary lines only
 
 def real_cases(tier, rng):
     for name, n, kl in REAL:
@@ -395,6 +605,8 @@ def cases(tier, rng):
             yield from random_cases('thorough', rng, 500)
             yield from counter_cases('quick', rng, [n])
             yield from dec_cases('quick', rng, [n])
+            yield from real_mode_cases('quick', rng)
+            yield from real_dec_cases('thorough', rng, real_keys('quick', rng))
             yield from real_cases('quick', rng)
         return
     sizes = [8, 16, 32, 64, 128]
@@ -403,8 +615,11 @@ def cases(tier, rng):
     yield from dec_cases(tier, rng, sizes)
     yield from malformed_cases(tier, rng)
     yield from twice_cases(tier, rng)
+    yield from xd_toy_cases(tier, rng)
     yield from random_cases(tier, rng, 4000 if tier == 'quick' else 60000)
-    yield from real_cases(tier, rng)
+    real = list(real_mode_cases(tier, rng)) + list(real_dec_cases(tier, rng)) + list(real_malformed_cases(tier, rng)) + list(real_cases(tier, rng))
+    rng.shuffle(real)              # lines of very different cost: mix them so that the worker chunks are balanced
+    yield from real
     if tier == 'thorough':
         # second, independent key/IV/message draw and a block length outside the library's set
         yield from toy_cases('quick', rng, [8, 16, 24, 32, 64, 128])
@@ -421,11 +636,17 @@ def shrink(line):
         yield ' '.join(t[:-1] + ['x' + '00' * ((len(msg) - 1) // 2)])
 
 
-LEVEL_TEXT = ('Lean 4 theorems about Model.Mode (the hand-written mirror of crysp/mode.py over an abstract block cipher) for every cipher '
-              'satisfying the permutation hypotheses, every key/IV/counter block and every message length; the model is tied to the current '
-              'source by a correspondence stream that drives the real mode code with toy ciphers of block length 8..128 bytes and the real '
-              'AES/DES/TDEA/Serpent/Threefish objects, and evaluates an independent SP 800-38A reference on the real code.')
+LEVEL_TEXT = ('Lean 4 theorems about Model.Mode (the hand-written mirror of crysp/mode.py over a block cipher object), stated (a) for every '
+              'cipher satisfying the permutation hypotheses and (b) for the library\'s AES-128/192/256, DES, TDEA (every calling form) and Serpent '
+              '(keys of 0..32 bytes) with NO hypothesis on the cipher left: the C03 permutation theorems and the C02 refinement theorems of each '
+              'cipher are composed, so that the mode output equals SP 800-38A over FIPS 197 / FIPS 46-3 / SP 800-67 / the Serpent submission, for '
+              'every key, IV / counter block, admissible padding and message length. The models are tied to the current source by a '
+              'correspondence stream that drives the real mode objects over the real cipher objects (and over toy ciphers of block length 8..128 '
+              'bytes), compared with Model.Mode over the Lean cipher models and Spec.Mode over the Spec ciphers, and evaluates an independent '
+              'SP 800-38A reference and the appendix F vectors on the real code.')
 LEVEL_NOTE = ('Trusted: Lean kernel; axioms within {propext, Classical.choice, Quot.sound}; Spec.Mode/Spec.ModePad as renderings of SP 800-38A, its '
-              'addendum and the padding methods; extract.py/runcheck.py/props/C05.py. The cipher is abstract: instantiation for AES/DES/TDEA/'
-              'Serpent/Threefish needs the C03 permutation theorems. Theorem list: evidence/C05.json coverage.theorems.')
-TECHNIQUE = 'Lean 4 proof (induction over block lists, abstract cipher refinement) + correspondence check with toy and real ciphers'
+              'addendum and the padding methods (Spec.ModePad proved equal to Spec.Padding on byte strings; appendix F.1.1/F.2.1/F.5.1 evaluated '
+              'through Spec.Mode over Spec.Aes in the kernel); Spec.Aes/Des/Serpent; extract.py/runcheck.py/props/C05.py. Threefish has no Lean '
+              'model yet (hook: LibCipher in Proofs/Lemmas/ModeInst.lean); for it only the abstract-cipher theorems and summary lines apply. '
+              'Theorem list: evidence/C05.json coverage.theorems.')
+TECHNIQUE = 'Lean 4 proof (induction over block lists, cipher refinement composed with C02/C03) + correspondence check with the real and toy ciphers'
